@@ -836,3 +836,37 @@ UNITS += [
     r_unit('finalExit', 'R___finalExit', R_FE, dict({'C___deepExit': C_EXIT}, **PLANDATA_CLEAR), ['C01', 'C09', 'C11', 'C18'], 0, calls={'PlanDataT__clear': 'contract'}),
     r_unit('replayTransition', 'R___replayTransition', R_REPLAY, {'C___deepChangeToRequested': C_CHANGE}, ['C11', 'C01', 'C03', 'C18'], 1),
 ]
+
+# =============================================================================================
+# C16, verbose logging and the head-less apex S_<N, Args, EmptyT<Args>>: a method record for every delivery (even to a state that
+# defines no callback), naming that state and that method, and no user callback
+WP = 'w_peer'
+def s_empty_contract(cb):
+    mid, flav, ev = CB[cb]
+    kid = K[mid]
+    c = core(flav)
+    who = 'WHO(%s)' % ST
+    ens = [('C16', implies('%s->logger != (void*)0' % c, 'g_lt[%d][%s] == __CPROVER_old(g_clock) + 1 && g_clock == __CPROVER_old(g_clock) + 1' % (kid, who))),
+           ('C16', implies('%s->logger == (void*)0' % c, 'g_clock == __CPROVER_old(g_clock)')),
+           ('C16', 'g_t[%d][%s] == __CPROVER_old(g_t[%d][%s])' % (kid, who, kid, who))]
+    # the logger stub checks nothing about *which* method; the record's method id and state id are checked here:
+    ens.append(('C16', implies('%s->logger != (void*)0' % c, 'g_lm == %d && g_ls == %s' % (kid, ST))))
+    if cb in ('entryGuard', 'exitGuard'):
+        ens.append('__CPROVER_return_value == 0')
+    elif flav == 'Full' and cb not in ('planSucceeded', 'planFailed'):
+        ens.append('__CPROVER_return_value.result == TaskStatus_Result__NONE')
+    rt = [fresh('self'), fresh('control'), fresh(c, '*' + c), '(%s->logger == (void*)0 || __CPROVER_is_fresh(%s->logger, sizeof(*%s->logger)))' % (c, c, c),
+          '%s->context == (void*)0 || __CPROVER_is_fresh(%s->context, sizeof(*%s->context))' % (c, c, c)] + (['{fresh:{p-1}}'] if ev else [])
+    return dict(requires_target=rt, requires=['g_clock < ' + BOUND['S'], 'g_lt[%d][%s] == 0' % (kid, who)],
+                assigns=['g_clock', 'g_lt[%d][%s]' % (kid, who), 'g_lm', 'g_ls'], ensures=ens)
+LOG_M = {'LoggerInterfaceT__recordMethod': dict(requires=['g_clock < ' + BIG + ' * 2', '_unnamed2 < 16'], assigns=['g_clock', 'g_lt[_unnamed2][WHO(_unnamed1)]', 'g_lm', 'g_ls'],
+                                                ensures=['g_clock == __CPROVER_old(g_clock) + 1', 'g_lt[_unnamed2][WHO(_unnamed1)] == g_clock', 'g_lm == _unnamed2 && g_ls == _unnamed1'])}
+def s_empty_unit(cb):
+    mid, flav, ev = CB[cb]
+    fn = DEEP[cb]
+    recs = dict(S_RECS); recs['S_'] = r'^ffsm2::detail::S_<255,.*,ffsm2::detail::A_<ffsm2::detail::B_<'
+    return dict(id='structure.S_empty.%s' % fn, witness=WP, recs=recs, opaque=OPAQUE, props=['C16', 'C18'],
+                target=dict(cls=recs['S_'], name=fn, nparams=2 if ev else 1), consts=S_CONSTS, need_consts=['ArgsT.STATE_COUNT'],
+                ghost=GHOST + ['uint8_t g_lm, g_ls;   /* method and state named by the last method record */'],
+                calls=S_CALLS, contracts=dict(LOG_M, **{'@target': s_empty_contract(cb)}))
+UNITS += [s_empty_unit(cb) for cb in ('entryGuard', 'enter', 'preUpdate', 'update', 'postUpdate', 'preReact', 'react', 'postReact', 'query', 'exit', 'planSucceeded', 'planFailed')]
